@@ -141,15 +141,15 @@ theorem dedicated_obligation : 0 < Dud.Facts.maxDedicatedWorkers := by decide
 /-- The three spawn loops select on the shared pool, the dedicated pool and `ctx.Done`, and the three
     dedicated pools have capacity `maxDedicatedWorkers`. -/
 theorem spawn_select_obligation :
-    ("activeSharedWorkers <- struct{}{}" ∈ Dud.Facts.commitSpawnSelect ∧
-     "activeDedicatedWorkers <- struct{}{}" ∈ Dud.Facts.commitSpawnSelect ∧
-     "<-ctx.Done()" ∈ Dud.Facts.commitSpawnSelect) ∧
-    ("activeSharedWorkers <- struct{}{}" ∈ Dud.Facts.checkoutSpawnSelect ∧
-     "activeDedicatedWorkers <- struct{}{}" ∈ Dud.Facts.checkoutSpawnSelect ∧
-     "<-ctx.Done()" ∈ Dud.Facts.checkoutSpawnSelect) ∧
-    ("activeSharedWorkers <- struct{}{}" ∈ Dud.Facts.statusSpawnSelect ∧
-     "activeDedicatedWorkers <- struct{}{}" ∈ Dud.Facts.statusSpawnSelect ∧
-     "<-ctx.Done()" ∈ Dud.Facts.statusSpawnSelect) ∧
+    ("$param <- struct{}{}" ∈ Dud.Facts.commitSpawnSelect ∧
+     "$local<make> <- struct{}{}" ∈ Dud.Facts.commitSpawnSelect ∧
+     "<-$param.Done()" ∈ Dud.Facts.commitSpawnSelect) ∧
+    ("$param <- struct{}{}" ∈ Dud.Facts.checkoutSpawnSelect ∧
+     "$local<make> <- struct{}{}" ∈ Dud.Facts.checkoutSpawnSelect ∧
+     "<-$param.Done()" ∈ Dud.Facts.checkoutSpawnSelect) ∧
+    ("$param <- struct{}{}" ∈ Dud.Facts.statusSpawnSelect ∧
+     "$local<make> <- struct{}{}" ∈ Dud.Facts.statusSpawnSelect ∧
+     "<-$param.Done()" ∈ Dud.Facts.statusSpawnSelect) ∧
     Dud.Facts.dedicatedCaps =
       ["maxDedicatedWorkers", "maxDedicatedWorkers", "maxDedicatedWorkers"] := by
   decide
